@@ -51,6 +51,30 @@ var arrFns = []struct {
 	code string
 }{
 	{"array_merge", []string{"array_merge"}, `json_encode(array_merge(["q"=>1,"b"=>2,"z"=>3], ["b"=>9,"a"=>4]))`},
+	{"array_merge_recursive", []string{"array_merge_recursive"}, `json_encode(array_merge_recursive(["q"=>1,"b"=>["z"=>1,"a"=>2],"m"=>3], ["b"=>["y"=>3,"a"=>4],"c"=>5,"q"=>6]))`},
+	{"array_replace_recursive", []string{"array_replace_recursive"}, `json_encode(array_replace_recursive(["q"=>1,"b"=>["z"=>1,"a"=>2],"m"=>3], ["b"=>["y"=>3,"a"=>4],"c"=>5]))`},
+	{"array_replace_nested", []string{"array_replace"}, `json_encode(array_replace(["q"=>["z"=>1,"a"=>2],"b"=>2], ["m"=>["y"=>1,"c"=>2]]))`},
+	{"array_intersect", []string{"array_intersect"}, `json_encode(array_intersect(["q"=>"x","b"=>"y","z"=>"w","a"=>"x"], ["k"=>"x","j"=>"w"]))`},
+	{"array_intersect_assoc", []string{"array_intersect_assoc"}, `json_encode(array_intersect_assoc(["q"=>"x","b"=>"y","z"=>"w"], ["z"=>"w","q"=>"x","n"=>"y"]))`},
+	{"array_diff", []string{"array_diff"}, `json_encode(array_diff(["q"=>"x","b"=>"y","z"=>"w","a"=>"v"], ["k"=>"y"]))`},
+	{"array_diff_assoc", []string{"array_diff_assoc"}, `json_encode(array_diff_assoc(["q"=>"x","b"=>"y","z"=>"w","a"=>"v"], ["b"=>"y"]))`},
+	{"array_pad_assoc", []string{"array_pad"}, `json_encode(array_pad(["q"=>1,"b"=>2,"z"=>3], 5, 0))`},
+	{"array_chunk_assoc", []string{"array_chunk"}, `json_encode(array_chunk(["q"=>1,"b"=>2,"z"=>3,"a"=>4], 2, true))`},
+	{"array_reduce_assoc", []string{"array_reduce"}, `array_reduce(["q"=>"x","b"=>"y","z"=>"w"], function($c, $v) { return $c . $v; }, "")`},
+	{"array_shift_assoc", []string{"array_shift"}, `(function() { $a = ["q"=>1,"b"=>2,"z"=>3]; $f = array_shift($a); return $f . json_encode($a); })()`},
+	{"array_pop_assoc", []string{"array_pop"}, `(function() { $a = ["q"=>1,"b"=>2,"z"=>3]; $f = array_pop($a); return $f . json_encode($a); })()`},
+	{"array_unshift_assoc", []string{"array_unshift"}, `(function() { $a = ["q"=>1,"b"=>2]; array_unshift($a, 9); return json_encode($a); })()`},
+	{"array_splice_assoc", []string{"array_splice"}, `(function() { $a = ["q"=>1,"b"=>2,"z"=>3,"a"=>4]; array_splice($a, 1, 1); return json_encode($a); })()`},
+	{"array_key_exists_first", []string{"array_search"}, `array_search("x", ["q"=>"x","b"=>"x","z"=>"x"])`},
+	{"current_key_next", []string{"current", "key", "next"}, `(function() { $a = ["q"=>1,"b"=>2,"z"=>3]; $s = key($a) . current($a); next($a); return $s . key($a) . current($a); })()`},
+	{"end_reset", []string{"end", "reset"}, `(function() { $a = ["q"=>1,"b"=>2,"z"=>3]; return end($a) . reset($a); })()`},
+	{"extract_order", []string{"extract", "get_defined_vars"}, `(function() { extract(["q"=>1,"b"=>2,"z"=>3]); return $q . $b . $z; })()`},
+	{"array_multisort", []string{"array_multisort"}, `(function() { $a = [3, 1, 2]; $b = ["c", "a", "b"]; array_multisort($a, $b); return json_encode([$a, $b]); })()`},
+	{"natsort", []string{"natsort"}, `(function() { $a = ["q"=>"img12","b"=>"img10","z"=>"img2"]; natsort($a); return json_encode($a); })()`},
+	{"krsort", []string{"krsort"}, `(function() { $a = ["q"=>1,"b"=>2,"z"=>3]; krsort($a); return json_encode($a); })()`},
+	{"sort_assoc_values_ties", []string{"sort"}, `(function() { $a = ["q"=>"x","b"=>"x","z"=>"a"]; sort($a); return json_encode($a); })()`},
+	{"str_word_count", []string{"count_chars"}, `json_encode(count_chars("hello world", 1))`},
+	{"parse_str", []string{"parse_str"}, `(function() { parse_str("q=1&b=2&z[]=3&z[]=4&a[k]=5", $out); return json_encode($out); })()`},
 	{"array_flip", []string{"array_flip"}, `json_encode(array_flip(["q"=>"x","b"=>"y","z"=>"w"]))`},
 	{"array_unique", []string{"array_unique"}, `json_encode(array_unique(["q"=>1,"b"=>2,"z"=>1,"a"=>2,"m"=>3]))`},
 	{"array_count_values", []string{"array_count_values"}, `json_encode(array_count_values(["x","b","x","a","b","x"]))`},
